@@ -315,6 +315,10 @@ func (e *Engine) isMatchDigitPrefilter(haystack []byte) bool {
 			if e.dfa.SearchAtAnchored(state.dfaCache, haystack, digitPos) != -1 {
 				return true
 			}
+			if !e.digitVerifyBounded {
+				// O(n) per failed candidate is O(n^2): one linear search instead.
+				return e.dfa.IsMatchAt(state.dfaCache, haystack, digitPos+1)
+			}
 		} else {
 			atomic.AddUint64(&e.stats.NFASearches, 1)
 			start, _, found := state.pikevm.SearchAt(haystack, digitPos)
